@@ -7,7 +7,7 @@ from oracles import registry
 
 ID = 'C05'
 RULE = ('for every registered number-with-unit model: every (unit, spelling) of the suffix and prefix tables of its extractor '
-        'configurations x numerals {3, 25, decimal 2.5 in the culture notation} (quick: one numeral, seed-rotated) x {alone, '
+        'configurations x numerals {3, 25, decimal 2.5 in the culture notation} (quick: one numeral, seed-rotated; plus the boundary numeral 0, alone) x {alone, '
         'carrier}; for every (main unit, fractional unit) pair linked by CurrencyFractionMapping that has spellings in the culture x '
         '4 amounts x {and-connector, none}. Oracle: one entity over numeral+unit, value == number model on the numeral, unit in '
         'the canonical names listing that spelling, isoCurrency from the culture table; compound value == N + M/ratio. '
@@ -32,7 +32,7 @@ def configure(tier, seed):
     CFG.update(tier=tier, seed=seed, numerals=NUMERALS if thorough else [NUMERALS[seed % 2], '2.5'],
                currency_cultures=None if thorough else ['en-us', 'zh-cn', 'fr-fr', ['es-es', 'pt-br', 'nl-nl', 'de-de', 'it-it', 'es-mx'][seed % 6]])
     return {'shard_depth': 99, 'progress': True,
-            'bounds': {'numerals': CFG['numerals'], 'currency_cultures': CFG['currency_cultures'] or 'all', 'amounts': [(1, 1), (3, 50), (10, 5), (1, 99)]},
+            'bounds': {'numerals': CFG['numerals'], 'currency_cultures': CFG['currency_cultures'] or 'all', 'amounts': [(1, 1), (3, 50), (10, 5), (1, 99), (0, 50), (3, 0)]},
             'blocks': ['all'] if thorough else ['numerals %r' % CFG['numerals'], 'currency cultures %r' % CFG['currency_cultures']]}
 
 
@@ -139,11 +139,11 @@ def body(ch):
         # besides the fixed numerals: every digit run of the spelling itself (km2 -> 2, m3 -> 3), the case in which cutting
         # the number out of the entity text can damage the unit
         own = [d for d in dict.fromkeys(re.findall(r'\d+', sp)) if d not in CFG['numerals'] and d != '0']
-        numeral = ch.pick('numeral', CFG['numerals'] + own)
+        numeral = ch.pick('numeral', CFG['numerals'] + own + ['0'])        # 0: the boundary numeral (falsy value)
         if cul in DECIMAL_COMMA:
             numeral = numeral.replace('.', ',')
         car = CARRIER.get(cul, CARRIER['default']) if (cul != 'zh-cn' or is_cjk(sp)) else CARRIER['default']
-        pre, post = ch.pick('carrier', (('', ''), car))
+        pre, post = ch.pick('carrier', (('', ''), car) if numeral != '0' else (('', ''),))
         nv = number_value(cul, numeral)
         if nv is None:
             ch.prune()
@@ -157,6 +157,14 @@ def body(ch):
                 iso_expected.add(None if (code is None or code.startswith('_')) else code)
                 if u in S.get(('no_iso', cul), ()):
                     iso_expected.add(None)        # unit served by a sub-model without ISO resolution
+        if numeral == '0':
+            # the boundary numeral is judged only for entries that work with an ordinary numeral (the others are reported by
+            # their own leaves): a failure here is then attributable to the value 0
+            nv3 = number_value(cul, '3')
+            if not any(judge_single(mt, cul, lit3, (0, len(lit3) - 1), nv3, unit_ok, iso_expected)[0] is None
+                       for lit3 in forms(kind, '3', sp, cul)):
+                ch.ok(nontrivial=False, outcome='numeral-0-not-applicable')
+                return
         last = None
         for lit in forms(kind, numeral, sp, cul):
             q = pre + lit + post
@@ -167,7 +175,7 @@ def body(ch):
                       sample={'model': mt, 'culture': cul, 'query': q, 'entity': got[0]} if kind == 'prefix' else None)
                 return
         err, got, q = last
-        ch.fail('%s|%s|%s|%s|%s%s' % (mt, cul, unit, sp, err, '|carrier' if pre else ''),
+        ch.fail('%s|%s|%s|%s|%s%s%s' % (mt, cul, unit, sp, err, '|carrier' if pre else '', '|numeral-0' if numeral == '0' else ''),
                 {'model': mt, 'culture': cul, 'unit': unit, 'spelling': sp, 'kind': kind, 'query': q, 'observed': got,
                  'expected': {'value': nv, 'unit_in': sorted(unit_ok), 'iso_in': sorted(map(str, iso_expected)) if iso_expected else None}})
     else:
@@ -179,7 +187,7 @@ def body(ch):
         ci = ch.pick_index('chunk', (len(pairs) + 19) // 20)
         ch.shard()
         unit, iso, fu, ratio = ch.pick('pair', pairs[ci * 20:(ci + 1) * 20])
-        n, mnum = ch.pick('amounts', ((1, 1), (3, 50), (10, 5), (1, 99)))
+        n, mnum = ch.pick('amounts', ((1, 1), (3, 50), (10, 5), (1, 99), (0, 50), (3, 0)))
         conn = ch.pick('connector', (CONNECT.get(cul, ' '), ' '))
         su = suffix[unit].split('|')[0]
         sf = suffix[fu].split('|')[0]
@@ -187,12 +195,19 @@ def body(ch):
         if cul == 'zh-cn' and not is_cjk(su):
             conn = ' and ' if conn.strip() == '' and conn == CONNECT['zh-cn'] else ' '
         lit = '%d%s%s%s%d%s%s' % (n, glue, su, conn if not is_cjk(su) else '', mnum, glue, sf)
+        if 0 in (n, mnum):
+            # judged only for pairs that merge with ordinary amounts (the others are reported by their own leaves)
+            lit3 = '%d%s%s%s%d%s%s' % (3, glue, su, conn if not is_cjk(su) else '', 50, glue, sf)
+            e3 = registry.parse('NumberWithUnit', 'CurrencyModel', cul, lit3)
+            if len(e3) != 1 or (e3[0].start, e3[0].end) != (0, len(lit3) - 1):
+                ch.ok(nontrivial=False, outcome='amount-0-not-applicable')
+                return
         ents = registry.parse('NumberWithUnit', 'CurrencyModel', cul, lit)
         got = [(e.start, e.end, e.text, e.resolution) for e in ents]
         exp = n + mnum / float(ratio)
         rec = {'culture': cul, 'query': lit, 'main_unit': unit, 'iso': iso, 'fraction_unit': fu, 'ratio': ratio,
                'expected_value': exp, 'observed': got}
-        key = 'compound|%s|%s+%s' % (cul, unit, fu)
+        key = 'compound|%s|%s+%s%s' % (cul, unit, fu, '|amount-0' if 0 in (n, mnum) else '')
         if len(got) != 1 or (got[0][0], got[0][1]) != (0, len(lit) - 1):
             ch.fail('%s|%s' % (key, 'missing' if not got else 'split'), rec)
             return
